@@ -154,10 +154,13 @@ NameClauses(o, in, ch) ==
 
 (* ---------------------------------------------------------------- labels     *)
 (* legacy label names: [a-zA-Z_][a-zA-Z0-9_]* ; anything else -> "_"           *)
-LabelName(o, k) ==
-  IF ~Legacy(o) THEN Render(k)
-  ELSE Render([i \in 1..Len(k) |-> IF k[i].c \in {"sep", "bad", "colon"} \/ (k[i].c = "d" /\ i = 1)
-                                   THEN US ELSE k[i]])
+SanLabel(k) == Render([i \in 1..Len(k) |-> IF k[i].c \in {"sep", "bad", "colon"} \/ (k[i].c = "d" /\ i = 1)
+                                           THEN US ELSE k[i]])
+LabelName(o, k) == IF ~Legacy(o) THEN Render(k) ELSE SanLabel(k)
+(* an attribute is [k, t, v, r, f, n]: f = removed from the stream by the view's attribute filter (it is then  *)
+(* only visible as a "filtered attribute" of exemplars), n = number of runes of key + value text               *)
+Kept(as) == SelectSeq(as, LAMBDA a : ~a.f)
+Filt(as) == SelectSeq(as, LAMBDA a : a.f)
 HasColonKey(o, as) == Legacy(o) /\ \E i \in 1..Len(as) : \E j \in 1..Len(as[i].k) : as[i].k[j].c = "colon"
 
 RECURSIVE JoinV(_)
@@ -175,14 +178,23 @@ Labels(o, as) ==
 Lab(n, v) == [n |-> n, vs |-> {v}]
 LabelNames(ls) == {l.n : l \in ls}
 
-(* an instrumentation scope is identified by (name, version, schema URL); env.scopes lists the scopes whose  *)
-(* identity is not the default (name = id, version = "v" \o id, no schema URL).  The scope labels carry       *)
-(* name and version only, so two scopes may have the same labels.                                             *)
+(* an instrumentation scope is identified by (name, version, schema URL, attributes); env.scopes lists the    *)
+(* scopes whose identity is not the default (name = id, version = "v" \o id, no schema URL, no attributes).   *)
+(* The scope labels carry name and version only, so two scopes may have the same labels.                      *)
 ScopeRec(env, sid) == IF \E i \in 1..Len(env.scopes) : env.scopes[i].id = sid
                       THEN env.scopes[CHOOSE i \in 1..Len(env.scopes) : env.scopes[i].id = sid]
-                      ELSE [id |-> sid, name |-> sid, version |-> "v" \o sid, url |-> ""]
+                      ELSE [id |-> sid, name |-> sid, version |-> "v" \o sid, url |-> "", attrs |-> <<>>]
 ScopeLabels(env, sid) == IF env.o.noScope THEN {}
                          ELSE LET r == ScopeRec(env, sid) IN {Lab("otel_scope_name", r.name), Lab("otel_scope_version", r.version)}
+(* otel_scope_info additionally carries the scope's attributes *)
+ScopeInfoLabels(env, sid) == ScopeLabels(env, sid) \cup Labels(env.o, ScopeRec(env, sid).attrs)
+(* labels a series MAY carry in addition (the later revision of the compatibility rules puts the whole scope   *)
+(* identity on every series): otel_scope_schema_url, otel_scope_<attribute>                                      *)
+OptScopeLabels(env, sid) ==
+  IF env.o.noScope THEN {}
+  ELSE LET r == ScopeRec(env, sid) IN
+       (IF r.url = "" THEN {} ELSE {Lab("otel_scope_schema_url", r.url)})
+       \cup {Lab("otel_scope_" \o LabelName(env.o, r.attrs[i].k), r.attrs[i].v) : i \in 1..Len(r.attrs)}
 ConstLabels(o, res) == IF o.resConst THEN Labels(o, SelectSeq(res, LAMBDA a : \E i \in Range(o.resKeys) : res[i] = a)) ELSE {}
 
 (* ---------------------------------------------------------------- values     *)
@@ -222,24 +234,44 @@ NativeBuckets(scale, off, cnt) ==
 (*   DupScopeInfo   : two scopes that differ only in schema URL get two         *)
 (*                    identical otel_scope_info series: the registry rejects   *)
 (*                    the scrape                                               *)
-Deviations == {"EmptyStemPanic", "HelpEmptyFirst", "ColonKey", "ExpScaleDrop", "DupScopeInfo"}
+(*   DupScopeSeries : two scopes with equal name and version (different schema  *)
+(*                    URL or attributes) that hold instruments of the same     *)
+(*                    family: their series have identical labels, the registry *)
+(*                    rejects the scrape                                       *)
+Deviations == {"EmptyStemPanic", "HelpEmptyFirst", "ColonKey", "ExpScaleDrop", "DupScopeInfo", "DupScopeSeries"}
 
 (* ---------------------------------------------------------------- one scrape *)
 (* stream = [inst, scope, data, points]; point = [as, val, count, sum, counts, *)
-(*           scale, zero, poff, pcnt, noff, ncnt]  (the SDK's cumulative view) *)
-(* env = [o, res, insts, ases, bounds, scopes]; as = index into env.ases        *)
+(*           scale, zero, poff, pcnt, noff, ncnt, exs]  (the SDK's cumulative  *)
+(*           view; exs = its exemplars [val, q, qok, trace, span])             *)
+(* env = [o, res, insts, ases, bounds, qbounds, scopes, mark]; as = index into env.ases *)
 InstOf(env, id) == CHOOSE in \in Range(env.insts) : in.id = id
 InstIds(env) == {in.id : in \in Range(env.insts)}
 NameMap(env, ch) == [id \in InstIds(env) |-> Name(env.o, InstOf(env, id), ch)]
 NameMaps(env) == {NameMap(env, ch) : ch \in Choices}
 
-(* every measurement of the harness carries vinst = instrument, vas = attribute set *)
-Markers(id, a) == {Lab("vinst", "i" \o ToString(id)), Lab("vas", "a" \o ToString(a))}
+(* every measurement of the harness carries vas = attribute set and, unless env.mark is off, vinst = instrument *)
+Markers(env, id, a) == {Lab("vas", "a" \o ToString(a))} \cup (IF env.mark THEN {Lab("vinst", "i" \o ToString(id))} ELSE {})
+
+(* ---------------------------------------------------------------- exemplars  *)
+(* Rules (OTel compatibility + exporter): exemplars of monotonic sums and of explicit-bucket histograms are      *)
+(* exposed (a counter holds ONE exemplar, a histogram one per bucket, in the bucket its value falls into) with    *)
+(* the labels trace_id, span_id and the (sanitised) filtered attributes.  Prometheus limits the exemplar labels   *)
+(* to 128 runes; trace_id/span_id take 63.  An exemplar that cannot be represented is left out (or exposed with   *)
+(* fewer labels) -- the series itself is exposed and the scrape neither fails nor panics.  Gauges carry none;     *)
+(* native histograms may.                                                                                         *)
+RECURSIVE RuneSum(_)
+RuneSum(as) == IF as = <<>> THEN 0 ELSE Head(as).n + RuneSum(Tail(as))
+ExRunes(as) == 63 + RuneSum(Filt(as))
+ExLabels(o, as) == {[ns |-> {SanLabel(a.k)} \cup (IF Legacy(o) THEN {} ELSE {Render(a.k)}), v |-> a.v] : a \in Range(Filt(as))}
+ExSpec(env, data, as, exs) == [mode |-> CASE data = "counter" -> "one" [] data = "hist" -> "buckets" [] OTHER -> "any",
+                               sdk |-> Range(exs), rep |-> ExRunes(as) <= 128, labels |-> ExLabels(env.o, as), qb |-> env.qbounds]
+NoEx == [mode |-> "any", sdk |-> {}, rep |-> TRUE, labels |-> {}, qb |-> <<>>]
 
 XSeries(env, st, p, dv) ==
   LET o == env.o
       as == env.ases[p.as]
-      al == Labels(o, as)
+      al == Labels(o, Kept(as))
       fixed == ScopeLabels(env, st.scope) \cup ConstLabels(o, env.res)
       (* an attribute whose sanitised key equals a scope / constant label: the rules do *)
       (* not say what happens; the series may be missing, only its values are checked   *)
@@ -247,7 +279,8 @@ XSeries(env, st, p, dv) ==
       exp == st.data = "exphist"
       presence == IF ("ColonKey" \in dv /\ HasColonKey(o, as)) \/ ("ExpScaleDrop" \in dv /\ exp /\ p.scale > 8) THEN "absent"
                   ELSE IF loose \/ (exp /\ p.scale < -4) THEN "may" ELSE "must"
-      base == [labels |-> al \cup Markers(st.inst, p.as) \cup fixed, loose |-> loose, presence |-> presence,
+      base == [labels |-> al \cup Markers(env, st.inst, p.as) \cup fixed, opt |-> OptScopeLabels(env, st.scope),
+               ex |-> ExSpec(env, st.data, as, p.exs), loose |-> loose, presence |-> presence,
                val |-> "", count |-> 0, sum |-> "", buckets |-> <<>>, native |-> FALSE,
                schema |-> 0, zero |-> 0, pos |-> {}, neg |-> {}]
   IN CASE st.data \in {"counter", "gauge"} -> [base EXCEPT !.val = p.val]
@@ -277,7 +310,7 @@ Walk(env, streams, cache, nm, dv, shown) ==
                IF c.typ # ty THEN Walk(env, Tail(streams), cache, nm, dv, shown)
                ELSE Walk(env, Tail(streams), cache, nm, dv, Append(shown, [name |-> n, typ |-> ty, eh |-> eh, st |-> st]))
 
-InfoSeries(ls, pres) == [labels |-> ls, loose |-> FALSE, presence |-> pres, val |-> "1", count |-> 0, sum |-> "",
+InfoSeries(ls, pres) == [labels |-> ls, opt |-> {}, ex |-> NoEx, loose |-> FALSE, presence |-> pres, val |-> "1", count |-> 0, sum |-> "",
                          buckets |-> <<>>, native |-> FALSE, schema |-> 0, zero |-> 0, pos |-> {}, neg |-> {}]
 
 (* result: [cache, fams, panic, reject]; family = [name, typ, help, anyHelp, series];  *)
@@ -292,7 +325,6 @@ Scrape(env, streams, cache, nm, dv) ==
                                   : i \in 1..Len(good)}
                 IN [name |-> n, typ |-> es[1].typ, help |-> es[1].eh, anyHelp |-> FALSE,
                     series |-> {x \in all : x.presence # "absent"}]
-      helpClash == \E i, j \in 1..Len(sh) : sh[i].name = sh[j].name /\ sh[i].eh # sh[j].eh
       target == IF o.noTarget THEN {}
                 ELSE {[name |-> "target_info", typ |-> "gauge", help |-> "", anyHelp |-> TRUE,
                        series |-> {InfoSeries(Labels(o, env.res), "must")}]}
@@ -302,28 +334,67 @@ Scrape(env, streams, cache, nm, dv) ==
       (* were all dropped may or may not have one                                           *)
       scopeInfo == IF o.noScope \/ allScopes = {} THEN {}
                    ELSE {[name |-> "otel_scope_info", typ |-> "gauge", help |-> "", anyHelp |-> TRUE,
-                          series |-> {InfoSeries(ScopeLabels(env, s), "must") : s \in shownScopes}
-                                     \cup {InfoSeries(ScopeLabels(env, s), "may") : s \in
-                                              {q \in allScopes \ shownScopes : \A z \in shownScopes : ScopeLabels(env, z) # ScopeLabels(env, q)}}]}
-      (* two scopes with equal labels: ONE scope info series (a set); the deviation emits it twice *)
-      dupScope == ~o.noScope /\ \E s1, s2 \in allScopes : s1 # s2 /\ ScopeLabels(env, s1) = ScopeLabels(env, s2)
+                          series |-> {InfoSeries(ScopeInfoLabels(env, s), "must") : s \in shownScopes}
+                                     \cup {InfoSeries(ScopeInfoLabels(env, s), "may") : s \in
+                                              {q \in allScopes \ shownScopes : \A z \in shownScopes : ScopeInfoLabels(env, z) # ScopeInfoLabels(env, q)}}]}
+      (* two scopes with equal info labels: ONE scope info series (a set); the deviation emits it twice *)
+      dupScope == ~o.noScope /\ \E s1, s2 \in allScopes : s1 # s2 /\ ScopeInfoLabels(env, s1) = ScopeInfoLabels(env, s2)
+      (* series of different streams with identical labels.  If the optional scope labels tell them apart an    *)
+      (* implementation can (must) keep them apart; otherwise the rules have no answer for this input and the   *)
+      (* registry may reject the scrape (rejectMay)                                                             *)
+      pts == UNION {{<<i, k>> : k \in 1..Len(sh[i].st.points)} : i \in 1..Len(sh)}
+      ser(q) == XSeries(env, sh[q[1]].st, sh[q[1]].st.points[q[2]], dv)
+      clash(q1, q2) == /\ q1[1] # q2[1] /\ sh[q1[1]].name = sh[q2[1]].name
+                       /\ ser(q1).presence # "absent" /\ ser(q2).presence # "absent"
+                       /\ ser(q1).labels = ser(q2).labels
+      dupOptFams == {sh[q1[1]].name : q1 \in {q1 \in pts : \E q2 \in pts : clash(q1, q2) /\ ser(q1).opt # ser(q2).opt}}
+      dupHardFams == {sh[q1[1]].name : q1 \in {q1 \in pts : \E q2 \in pts : clash(q1, q2) /\ ser(q1).opt = ser(q2).opt}}
+      helpFams == {sh[i].name : i \in {i \in 1..Len(sh) : \E j \in 1..Len(sh) : sh[i].name = sh[j].name /\ sh[i].eh # sh[j].eh}}
       panic == "EmptyStemPanic" \in dv /\ \E i \in 1..Len(streams) :
                   LET in == InstOf(env, streams[i].inst) IN AddTotal(o, in) /\ EscName(o, in.toks) = <<TOTAL>>
   IN [cache |-> w.cache, fams |-> {fam(n) : n \in {sh[i].name : i \in 1..Len(sh)}} \cup target \cup scopeInfo,
-      panic |-> panic, reject |-> helpClash \/ ("DupScopeInfo" \in dv /\ dupScope)]
+      panic |-> panic,
+      (* families whose metrics the registry is expected to reject / may reject *)
+      rejectMay |-> IF env.mark THEN {} ELSE dupHardFams,
+      reject |-> helpFams \cup (IF "DupScopeInfo" \in dv /\ dupScope THEN {"otel_scope_info"} ELSE {})
+                          \cup (IF "DupScopeSeries" \in dv /\ ~env.mark THEN dupOptFams ELSE {})]
 
 (* ---------------------------------------------------------------- matching   *)
 (* obs = what a real scrape exposed (projection written by the harness):       *)
-(* [panic, gerr, invalid, fams: seq of [name, typ, help, series: seq of        *)
+(* [panic, gerr, gfams, invalid, fams: seq of [name, typ, help, series: seq of        *)
 (*   [labels: seq of <<n, v>>, val, count, sum, buckets, native, schema, zero, pos, neg]]] *)
 SeriesLabelsOK(x, s) ==
   LET ol == Range(s.labels) IN
   /\ Cardinality({l[1] : l \in ol}) = Len(s.labels)                         \* consistent: no label twice
   /\ \A l \in x.labels : (~x.loose \/ l.n \in {"vinst", "vas"}) => \E q \in ol : q[1] = l.n /\ q[2] \in l.vs
-  /\ ~x.loose => {l[1] : l \in ol} = LabelNames(x.labels)
+  /\ ~x.loose => /\ LabelNames(x.labels) \subseteq {l[1] : l \in ol}
+                 /\ {l[1] : l \in ol} \subseteq LabelNames(x.labels) \cup LabelNames(x.opt)
+                 /\ \A q \in ol : q[1] \notin LabelNames(x.labels) => \E l \in x.opt : l.n = q[1] /\ q[2] \in l.vs
 SeriesValueOK(x, s) ==
   /\ s.val = x.val /\ s.count = x.count /\ s.sum = x.sum /\ s.buckets = x.buckets /\ s.native = x.native
   /\ x.native => (s.schema = x.schema /\ s.zero = x.zero /\ Range(s.pos) = x.pos /\ Range(s.neg) = x.neg)
+(* exemplars: s.exs = seq of [b (bucket ordinal, 0 = not in a bucket), val, q, qok, labels]; q = 8 * value when that is an integer *)
+ExBucket(qb, q) == IF \E k \in 1..Len(qb) : q <= qb[k]
+                   THEN CHOOSE k \in 1..Len(qb) : q <= qb[k] /\ \A j \in 1..(k - 1) : q > qb[j]
+                   ELSE Len(qb) + 1
+ExMatch(x, e) ==
+  LET ol == Range(e.labels)
+      rest == {q \in ol : q[1] \notin {"trace_id", "span_id"}} IN
+  /\ Cardinality({q[1] : q \in ol}) = Len(e.labels)
+  /\ \E sx \in x.ex.sdk : e.val = sx.val /\ <<"trace_id", sx.trace>> \in ol /\ <<"span_id", sx.span>> \in ol
+  /\ IF x.ex.rep
+     THEN /\ \A l \in x.ex.labels : \E q \in rest : q[1] \in l.ns /\ q[2] = l.v
+          /\ Cardinality(rest) = Cardinality(x.ex.labels)
+     ELSE \A q \in rest : \E l \in x.ex.labels : q[1] \in l.ns          \* fewer / truncated labels
+SeriesExOK(x, s) ==
+  LET n == Len(s.exs) IN
+  /\ \A i \in 1..n : ExMatch(x, s.exs[i])
+  /\ CASE x.ex.mode = "one" -> (IF x.ex.rep /\ x.ex.sdk # {} THEN n = 1 ELSE n <= 1)
+       [] x.ex.mode = "buckets" ->
+            /\ \A i, j \in 1..n : s.exs[i].b = s.exs[j].b => i = j
+            /\ \A i \in 1..n : s.exs[i].b >= 1 /\ (s.exs[i].qok => ExBucket(x.ex.qb, s.exs[i].q) = s.exs[i].b)
+            /\ x.ex.rep => \A sx \in x.ex.sdk : sx.qok => \E i \in 1..n : s.exs[i].b = ExBucket(x.ex.qb, sx.q)
+       [] OTHER -> TRUE
 SeriesOK(x, s) == SeriesLabelsOK(x, s) /\ SeriesValueOK(x, s)
 
 Must(x) == {xs \in x.series : xs.presence = "must"}
@@ -340,6 +411,7 @@ FamilyVerdict(x, obsFams) ==
        ELSE IF \E s \in Range(f.series) : ~\E xs \in x.series : SeriesLabelsOK(xs, s) THEN "extra-series"
        ELSE IF Len(f.series) > Cardinality(x.series) THEN "extra-series"
        ELSE IF \E s \in Range(f.series) : ~\E xs \in x.series : SeriesOK(xs, s) THEN "value"
+       ELSE IF \E s \in Range(f.series) : ~\E xs \in x.series : SeriesOK(xs, s) /\ SeriesExOK(xs, s) THEN "exemplar"
        ELSE "ok"
 
 (* verdict for a whole scrape: [why |-> "ok" or the first broken clause, fam |-> names]  *)
@@ -348,8 +420,9 @@ Verdict(exp, obs) ==
       extra == {f \in Range(obs.fams) : ~\E x \in exp.fams : f.name = x.name}
   IN IF obs.panic # "" THEN [why |-> IF exp.panic THEN "ok" ELSE "panic", fam |-> {}]
      ELSE IF exp.panic THEN [why |-> "no-panic", fam |-> {}]
-     ELSE IF obs.gerr # "" /\ ~exp.reject THEN [why |-> "registry-rejects", fam |-> {}]
-     ELSE IF obs.gerr = "" /\ exp.reject THEN [why |-> "no-reject", fam |-> {}]
+     ELSE IF obs.gerr # "" /\ ~(Range(obs.gfams) \subseteq exp.reject \cup exp.rejectMay)
+          THEN [why |-> "registry-rejects", fam |-> Range(obs.gfams) \ (exp.reject \cup exp.rejectMay)]
+     ELSE IF ~(exp.reject \subseteq Range(obs.gfams)) THEN [why |-> "no-reject", fam |-> exp.reject \ Range(obs.gfams)]
      ELSE IF obs.invalid # <<>> THEN [why |-> "invalid-name", fam |-> Range(obs.invalid)]
      ELSE IF bad # {} THEN LET x == CHOOSE x \in bad : TRUE IN [why |-> FamilyVerdict(x, obs.fams), fam |-> {x.name}]
      ELSE IF extra # {} THEN [why |-> "extra-family", fam |-> {f.name : f \in extra}]
